@@ -105,6 +105,14 @@ impl DataLog {
         self.filter_indexes.get(filter).copied()
     }
 
+    /// Takes the requests parked on a filter's log, as an append to that log does
+    pub fn take_waiters(
+        &mut self,
+        filter_idx: FilterIdx,
+    ) -> Option<VecDeque<(ConnectionId, DataRequest)>> {
+        self.native.get_mut(filter_idx)?.waiters.take()
+    }
+
     pub fn remove_waiters_for_id(
         &mut self,
         id: ConnectionId,
